@@ -159,6 +159,15 @@ func (m *Monitor) onEventSync(n *Node, msg interface{}) {
 				m.dumps[n.ID] = map[string]dbDump{}
 			}
 			m.dumps[n.ID][tb.ID] = dumpDB(n)
+			// a dump is only ever needed for the parent of a block that can still be removed: nothing below the
+			// finalized height
+			if f := n.Finalized(); f > 0 {
+				for id := range m.dumps[n.ID] {
+					if o := m.Tree.ByID[id]; o != nil && o.Header.Height+1 < f {
+						delete(m.dumps[n.ID], id)
+					}
+				}
+			}
 		}
 	case *consensus.EventBlockDeleteMessage:
 		m.checkDelete(n, e.Block)
